@@ -721,7 +721,16 @@ pub fn get_deposit(
     pool_deposit: &BigNum, // // protocol parameter
     key_deposit: &BigNum,  // protocol parameter
 ) -> Result<Coin, JsError> {
-    internal_get_deposit(&txbody.certs, &pool_deposit, &key_deposit)
+    let certificate_deposit = internal_get_deposit(&txbody.certs, &pool_deposit, &key_deposit)?;
+    // governance proposals carry a deposit as well
+    match &txbody.voting_proposals {
+        None => Ok(certificate_deposit),
+        Some(proposals) => proposals
+            .into_iter()
+            .try_fold(certificate_deposit, |acc, proposal| {
+                acc.checked_add(&proposal.deposit)
+            }),
+    }
 }
 
 #[derive(Debug, Clone, Eq, Ord, PartialEq, PartialOrd)]
